@@ -129,7 +129,7 @@ fn case_strat(tier: Tier) -> BoxedStrategy<MigCase> {
     (
         source_strategy(tier),
         any::<bool>(),
-        prop_oneof![12 => Just(DestKind::Absent), 1 => Just(DestKind::File), 1 => Just(DestKind::Symlink), 1 => Just(DestKind::Directory)],
+        prop_oneof![10 => Just(DestKind::Absent), 3 => Just(DestKind::File), 1 => Just(DestKind::Symlink), 1 => Just(DestKind::Directory)],
         proptest::bool::weighted(0.15),
         proptest::bool::weighted(0.2),
     )
@@ -306,6 +306,9 @@ struct Notes {
     records: usize,
     touched: bool,
     planted: bool,
+    cli_runs: u64,
+    cli_failures: u64,
+    cli_failures_with_existing_destination: u64,
 }
 
 fn materialise(src: &Source) -> Option<(Vec<u8>, u32)> {
@@ -330,7 +333,104 @@ fn materialise(src: &Source) -> Option<(Vec<u8>, u32)> {
     }
 }
 
+fn cli_binary() -> std::path::PathBuf {
+    std::path::PathBuf::from("/verif/target-cli/release/feox-migrate")
+}
+
+/// The library call, then (for cases without the mid-migration disturbances) the same migration
+/// through the `feox-migrate` command built from /repo: same outcome, same destination contents,
+/// and on failure the destination path as it was before (absent, or byte-identical).
 fn judge(case: &MigCase, notes: &mut Notes) -> Result<(), (String, String)> {
+    judge_lib(case, notes)?;
+    if case.touch_source || case.plant_dest || !cli_binary().exists() || notes.outcome == "source-unusable" {
+        return Ok(());
+    }
+    let lib_migrated = notes.outcome == "migrated";
+    let Some((img, _)) = materialise(&case.source) else { return Ok(()) };
+    let dir = env::scratch_dir().join(format!("migcli-{}", env::fresh_path("d").rsplit('-').next().unwrap_or("0").trim_end_matches(".feox")));
+    let _ = std::fs::remove_dir_all(&dir);
+    std::fs::create_dir_all(&dir).expect("mig dir");
+    let src = dir.join("source.feox");
+    let dst = dir.join("dest.feox");
+    std::fs::write(&src, &img).expect("write source");
+    let pre: Option<Vec<u8>> = match case.dest {
+        DestKind::Absent => None,
+        DestKind::File | DestKind::Symlink => {
+            let bytes = b"somebody else's file at the destination path".to_vec();
+            std::fs::write(&dst, &bytes).expect("existing destination");
+            Some(bytes)
+        }
+        DestKind::Directory => {
+            std::fs::create_dir_all(&dst).expect("dir");
+            None
+        }
+    };
+    let mut cmd = std::process::Command::new(cli_binary());
+    cmd.arg("--source").arg(&src).arg("--destination").arg(&dst);
+    if case.allow_ambiguous {
+        cmd.arg("--allow-ambiguous-legacy-recovery");
+    }
+    let out = {
+        let _g = env::watch("feox-migrate command");
+        cmd.stdout(std::process::Stdio::null()).stderr(std::process::Stdio::piped()).output()
+    };
+    let verdict = (|| -> Result<(), (String, String)> {
+        let out = out.map_err(|e| ("harness-cli".to_string(), format!("harness: cannot run {}: {e}", cli_binary().display())))?;
+        let Some(code) = out.status.code() else {
+            return Err(("cli-killed".into(), format!("feox-migrate was killed by a signal: {:?}", out.status)));
+        };
+        notes.cli_runs += 1;
+        if std::fs::read(&src).ok().as_deref() != Some(&img[..]) {
+            return Err(("source-modified".into(), "feox-migrate changed the bytes of the source file".into()));
+        }
+        let leftovers: Vec<String> = std::fs::read_dir(&dir).map(|d| d.filter_map(|e| e.ok()).map(|e| e.file_name().to_string_lossy().into_owned()).filter(|n| n != "source.feox" && n != "dest.feox").collect()).unwrap_or_default();
+        if !leftovers.is_empty() {
+            return Err(("temporary-left-behind".into(), format!("feox-migrate (exit {code}) left {leftovers:?} beside the destination")));
+        }
+        if code == 0 {
+            if pre.is_some() || matches!(case.dest, DestKind::Directory) {
+                return Err(("existing-destination-overwritten".into(), "feox-migrate reported success although the destination path already existed".into()));
+            }
+            if !lib_migrated {
+                return Err(("cli-differs-from-library".into(), format!("feox-migrate succeeded where migrate() failed ({})", notes.outcome)));
+            }
+            // same contents as an independent decode of the source
+            let exp = expected_contents(&img, case.allow_ambiguous).map_err(|r| ("cli-differs-from-library".to_string(), format!("feox-migrate succeeded on a source the oracle refuses ({r})")))?;
+            let dimg = std::fs::read(&dst).unwrap_or_default();
+            let ddec = layout::decode_image(&dimg).map_err(|e| ("destination-undecodable".to_string(), format!("independent reader cannot decode the destination written by feox-migrate: {e}")))?;
+            let got: BTreeMap<Vec<u8>, (Vec<u8>, u64, u64)> = ddec.live.iter().map(|(k, r)| (k.clone(), (r.value.clone(), r.ts, r.expiry))).collect();
+            if got != exp {
+                return Err(("destination-contents".into(), "the destination written by feox-migrate differs from what a recovery of the source yields".into()));
+            }
+            Ok(())
+        } else {
+            notes.cli_failures += 1;
+            let ok = match (&case.dest, &pre) {
+                (DestKind::Absent, _) => std::fs::symlink_metadata(&dst).is_err(),
+                (DestKind::Directory, _) => dst.is_dir() && std::fs::read_dir(&dst).map(|d| d.count() == 0).unwrap_or(false),
+                (_, Some(bytes)) => std::fs::read(&dst).ok().as_ref() == Some(bytes),
+                _ => true,
+            };
+            if !ok {
+                if pre.is_some() {
+                    notes.cli_failures_with_existing_destination += 1;
+                }
+                return Err(("failed-migration-left-destination".into(), format!("feox-migrate failed (exit {code}: {}) but the destination path was created, changed or removed", String::from_utf8_lossy(&out.stderr).lines().next().unwrap_or(""))));
+            }
+            if pre.is_some() {
+                notes.cli_failures_with_existing_destination += 1;
+            }
+            if lib_migrated && pre.is_none() && !matches!(case.dest, DestKind::Directory) {
+                return Err(("cli-differs-from-library".into(), format!("feox-migrate failed (exit {code}: {}) where migrate() succeeded", String::from_utf8_lossy(&out.stderr).lines().next().unwrap_or(""))));
+            }
+            Ok(())
+        }
+    })();
+    let _ = std::fs::remove_dir_all(&dir);
+    verdict
+}
+
+fn judge_lib(case: &MigCase, notes: &mut Notes) -> Result<(), (String, String)> {
     let Some((img, version)) = materialise(&case.source) else {
         notes.outcome = "source-unusable".into();
         return Ok(());
@@ -590,6 +690,11 @@ pub fn run(tier: Tier, seed: u64, replay: Option<&str>) -> i32 {
             }
             if notes.planted {
                 *o.entry("destination_planted_during_migration".into()).or_insert(0) += 1;
+            }
+            if notes.cli_runs > 0 {
+                *o.entry("cli.feox_migrate_runs".into()).or_insert(0) += notes.cli_runs;
+                *o.entry("cli.failed_runs".into()).or_insert(0) += notes.cli_failures;
+                *o.entry("cli.failed_runs_with_an_existing_destination".into()).or_insert(0) += notes.cli_failures_with_existing_destination;
             }
             if notes.touched {
                 *o.entry("source.mtime_touched_during_migration".into()).or_insert(0) += 1;
